@@ -34,7 +34,7 @@ Lemma const_schema_b_iff n columns r : const_schema_b n columns = Some r <-> con
 Proof.
   unfold const_schema_b, const_schema. split.
   - intro H. break_all H. injection H as <-. clean.
-    exists (t :: l). repeat split; auto. discriminate.
+    eexists. repeat split; eauto. discriminate.
   - intros (elems & -> & Hne & Hn & ->). rewrite elems_of_map.
     destruct elems; [contradiction|]. apply Z.leb_le in Hn. rewrite Hn. reflexivity.
 Qed.
@@ -45,8 +45,7 @@ Lemma readerfunc_schema_b_iff n read r :
 Proof.
   unfold readerfunc_schema_b, readerfunc_schema. split.
   - intro H. break_all H. injection H as <-. clean.
-    match goal with H : user_func _ (_ :: ?st :: _) _ [?c; _] |- _ => exists st, (t2 :: l3), c end.
-    repeat split; auto. discriminate.
+    do 3 eexists. split; [eassumption|]. repeat split; auto. discriminate.
   - intros (state & elems & count & Hf & Hne & Hk & ->).
     rewrite (user_func_b_of _ _ _ _ Hf). simpl. rewrite Hk, elems_of_map.
     destruct elems; [contradiction|]. reflexivity.
@@ -72,7 +71,7 @@ Lemma map_schema_b_iff U s f r : map_schema_b U s f = Some r <-> map_schema U s 
 Proof.
   unfold map_schema_b, map_schema. split.
   - intro H. break_all H. injection H as <-. clean.
-    exists l, o, l0. repeat split; auto. apply is_nil_false. assumption.
+    do 3 eexists. split; [eassumption|]. repeat split; auto. apply is_nil_false. assumption.
   - intros (ins & var & outs & Hf & Ha & Hne & ->).
     rewrite (user_func_b_of _ _ _ _ Hf). apply args_fit_b_spec in Ha. rewrite Ha.
     apply is_nil_false in Hne. rewrite Hne. reflexivity.
@@ -82,7 +81,7 @@ Lemma filter_schema_b_iff U s pred r : filter_schema_b U s pred = Some r <-> fil
 Proof.
   unfold filter_schema_b, filter_schema. split.
   - intro H. break_all H. injection H as <-. clean.
-    split; [|reflexivity]. exists l, o, t. auto.
+    split; [|reflexivity]. do 3 eexists. split; [eassumption|]. auto.
   - intros ((ins & var & b & Hf & Ha & Hb) & ->).
     rewrite (user_func_b_of _ _ _ _ Hf). apply args_fit_b_spec in Ha. rewrite Ha, Hb. reflexivity.
 Qed.
@@ -91,7 +90,7 @@ Lemma flatmap_schema_b_iff U s f r : flatmap_schema_b U s f = Some r <-> flatmap
 Proof.
   unfold flatmap_schema_b, flatmap_schema. split.
   - intro H. break_all H. injection H as <-. clean.
-    exists l, o, l1. auto.
+    do 3 eexists. split; [eassumption|]. auto.
   - intros (ins & var & elems & Hf & Ha & ->).
     rewrite (user_func_b_of _ _ _ _ Hf). apply args_fit_b_spec in Ha. rewrite Ha, elems_of_map. reflexivity.
 Qed.
@@ -184,4 +183,114 @@ Proof.
   unfold repartition_schema_b, repartition_schema. split.
   - intro H. break_all H. injection H as <-. clean. auto.
   - intros (Hf & ->). rewrite (user_func_b_of _ _ _ _ Hf). rewrite tys_eqb_refl. reflexivity.
+Qed.
+
+(* ---------------------------------------------------------------- Cogroup *)
+Lemma max_nshard_fold ss : max_nshard ss (fold_right Z.max 0%Z (map nshard ss)).
+Proof.
+  unfold max_nshard. induction ss as [|s r (H0 & Hall & Hex)]; simpl.
+  - repeat split; [lia | constructor | left; reflexivity].
+  - set (M := fold_right Z.max 0%Z (map nshard r)) in *. repeat split.
+    + lia.
+    + constructor; [lia|]. eapply Forall_impl; [|exact Hall]. simpl. intros; lia.
+    + destruct (Z.max_spec (nshard s) M) as [[Hlt ->] | [Hge ->]].
+      * destruct Hex as [->|Hex]; [left; reflexivity | right; apply Exists_cons_tl; assumption].
+      * right. apply Exists_cons_hd. reflexivity.
+Qed.
+
+Lemma max_nshard_unique ss m : max_nshard ss m -> m = fold_right Z.max 0%Z (map nshard ss).
+Proof.
+  intros (H0 & Hall & Hex).
+  destruct (max_nshard_fold ss) as (M0 & Mall & Mex).
+  set (M := fold_right Z.max 0%Z (map nshard ss)) in *.
+  rewrite Forall_forall in Hall, Mall.
+  assert (M <= m)%Z.
+  { destruct Mex as [->|Mex]; [assumption|]. apply Exists_exists in Mex as (s & Hs & <-). auto. }
+  assert (m <= M)%Z.
+  { destruct Hex as [->|Hex]; [assumption|]. apply Exists_exists in Hex as (s & Hs & <-). auto. }
+  lia.
+Qed.
+
+Lemma flat_map_map' {A B C} (g : A -> B) (f : B -> list C) l :
+  flat_map f (map g l) = flat_map (fun x => f (g x)) l.
+Proof. induction l; simpl; congruence. Qed.
+
+Lemma Forall2_map_r {A B} (R : A -> B -> Prop) (g : A -> B) l :
+  Forall (fun x => R x (g x)) l -> Forall2 R l (map g l).
+Proof. induction 1; simpl; constructor; auto. Qed.
+
+Lemma firstn_app_exact {A} (l r : list A) : firstn (length l) (l ++ r) = l.
+Proof. rewrite firstn_app, Nat.sub_diag, firstn_all, firstn_O, app_nil_r. reflexivity. Qed.
+
+Lemma skipn_app_exact {A} (l r : list A) : skipn (length l) (l ++ r) = r.
+Proof. rewrite skipn_app, Nat.sub_diag, skipn_all, skipn_O. reflexivity. Qed.
+
+Lemma cogroup_schema_b_iff U ss r : cogroup_schema_b U ss = Some r <-> cogroup_schema U ss r.
+Proof.
+  unfold cogroup_schema_b, cogroup_schema. split.
+  - destruct ss as [|s0 ss']; [discriminate|].
+    set (p := prefix s0). set (keys := firstn p (cols s0)).
+    intro H. break_all H. injection H as <-. clean.
+    match goal with H : forallb _ (s0 :: ss') = true |- _ => rename H into Hall end.
+    match goal with H : forallb (keyable U) keys = true |- _ => rename H into Hk end.
+    assert (Hlen : length keys = p) by (apply firstn_length_le; assumption).
+    exists keys, (map (fun s => skipn p (cols s)) (s0 :: ss')),
+      (fold_right Z.max 0%Z (map nshard (s0 :: ss'))).
+    split; [discriminate|]. split; [|split; [|split]].
+    + apply Forall2_map_r. rewrite forallb_forall in Hall. apply Forall_forall. intros s Hs.
+      specialize (Hall s Hs). clean. rewrite Hlen.
+      match goal with H : firstn p (cols s) = keys |- _ => rewrite <- H end.
+      split; [symmetry; apply firstn_skipn|]. split; [assumption|].
+      apply is_nil_false. assumption.
+    + apply forallb_keyable. assumption.
+    + apply max_nshard_fold.
+    + rewrite flat_map_map', Hlen. reflexivity.
+  - intros (keys & rests & m & Hne & H2 & Hk & Hm & ->).
+    destruct ss as [|s0 ss']; [contradiction|].
+    assert (Hp : prefix s0 = length keys).
+    { inversion H2; subst. tauto. }
+    assert (Hc0 : exists rest0, cols s0 = keys ++ rest0).
+    { inversion H2; subst. eexists. apply H1. }
+    destruct Hc0 as (rest0 & Hc0).
+    assert (Hkeys : firstn (prefix s0) (cols s0) = keys).
+    { rewrite Hp, Hc0. apply firstn_app_exact. }
+    rewrite Hkeys.
+    assert (Hle : (prefix s0 <=? length (cols s0))%nat = true).
+    { apply Nat.leb_le. rewrite Hp, Hc0, app_length. lia. }
+    rewrite Hle. cbn [andb].
+    assert (Hall : forallb (fun s => Nat.eqb (prefix s) (prefix s0)
+                                 && tys_eqb (firstn (prefix s0) (cols s)) keys
+                                 && negb (is_nil (cols s))) (s0 :: ss') = true).
+    { apply forallb_forall. intros s Hs.
+      assert (Hs' : exists rest, cols s = keys ++ rest /\ prefix s = length keys /\ cols s <> []).
+      { clear - H2 Hs. induction H2; [contradiction|]. destruct Hs as [<-|Hs]; eauto. }
+      destruct Hs' as (rest & Hc & Hpr & Hn).
+      rewrite Hp, Hpr, Nat.eqb_refl, Hc, firstn_app_exact, tys_eqb_refl. simpl.
+      rewrite <- Hc. apply negb_true_iff. apply is_nil_false. assumption. }
+    rewrite Hall. apply forallb_keyable in Hk. rewrite Hk. cbn [andb].
+    rewrite (max_nshard_unique _ _ Hm), Hp. do 2 f_equal. f_equal.
+    clear - H2. induction H2 as [|s rest ss1 rests1 (Hc & _ & _) _ IH]; [reflexivity|].
+    cbn [flat_map]. rewrite IH, Hc, skipn_app_exact. reflexivity.
+Qed.
+
+(* ---------------------------------------------------------------- Invocation *)
+Lemma nilable_b_iff t : nilable_b t = true <-> nilable t.
+Proof.
+  unfold nilable. destruct t; simpl; split; intro H;
+    try discriminate; try reflexivity;
+    try (destruct H as [(e0 & H)|[(e0 & H)|[(i & v & o & H)|H]]]; discriminate);
+    eauto 8.
+Qed.
+
+Lemma arg_fits_b_iff U expect have : arg_fits_b U expect have = true <-> arg_fits U expect have.
+Proof.
+  unfold arg_fits_b, arg_fits. destruct have as [h|]; [|apply nilable_b_iff].
+  destruct (is_iface expect); [tauto | apply ty_eqb_spec].
+Qed.
+
+Lemma invocation_schema_b_iff U params args :
+  invocation_schema_b U params args = true <-> invocation_schema U params args.
+Proof.
+  unfold invocation_schema_b, invocation_schema. rewrite all2_Forall2.
+  split; apply Forall2_impl'; intros x y; apply arg_fits_b_iff.
 Qed.
